@@ -30,6 +30,7 @@ type WeightedMerkleTrie struct {
 	oldRoot     hashNode
 	deleted     map[[32]byte]bool
 	tempDeleted [][]byte
+	collectable int // leading tempDeleted entries released by changes that a commit has covered
 	created     [][]byte
 	sync.Mutex
 }
@@ -327,6 +328,7 @@ func (t *WeightedMerkleTrie) Rollback() {
 		t.created = nil
 	}
 	t.tempDeleted = nil
+	t.collectable = 0
 	clear(t.deleted)
 }
 
@@ -346,12 +348,19 @@ func (t *WeightedMerkleTrie) DeleteNodes() error {
 		}
 	}
 	clear(t.deleted)
-	for _, key := range t.tempDeleted {
+	// only what a commit has covered: nodes released by uncommitted changes still
+	// belong to the last committed root
+	n := t.collectable
+	if n > len(t.tempDeleted) {
+		n = len(t.tempDeleted)
+	}
+	for _, key := range t.tempDeleted[:n] {
 		var k [32]byte
 		copy(k[:], key)
 		t.deleted[k] = true
 	}
-	t.tempDeleted = nil
+	t.tempDeleted = t.tempDeleted[n:]
+	t.collectable = 0
 	return nil
 }
 
@@ -416,6 +425,7 @@ func (t *WeightedMerkleTrie) Weight() uint64 {
 func (t *WeightedMerkleTrie) Commit(collapseLevel int) (storage.Batcher, error) {
 	batcher := t.db.NewBatch()
 	if !t.root.Dirty() {
+		t.collectable = len(t.tempDeleted)
 		return batcher, nil
 	}
 	root, ok := t.root.(*routingNode)
@@ -426,6 +436,7 @@ func (t *WeightedMerkleTrie) Commit(collapseLevel int) (storage.Batcher, error) 
 		close(deleteChan)
 		close(createdChan)
 		wg.Wait()
+		t.reconcileCreatedAndDeleted()
 	}()
 	t.collectDeleteAndCreated(deleteChan, createdChan, wg)
 	if ok {
@@ -469,6 +480,38 @@ func (t *WeightedMerkleTrie) Commit(collapseLevel int) (storage.Batcher, error) 
 	return batcher, nil
 }
 
+// reconcileCreatedAndDeleted runs when a commit has collected its created and released
+// hashes. A node that the commit wrote although it is queued as released (the same
+// content was deleted and re-added, or an unchanged root was saved again) is live and
+// is not new: it must neither be collected later nor be removed by a rollback.
+// Everything still queued afterwards was released by changes this commit covers.
+func (t *WeightedMerkleTrie) reconcileCreatedAndDeleted() {
+	created := make(map[string]bool, len(t.created))
+	for _, h := range t.created {
+		created[string(h)] = true
+	}
+	rewritten := make(map[string]bool)
+	kept := t.tempDeleted[:0]
+	for _, h := range t.tempDeleted {
+		if created[string(h)] {
+			rewritten[string(h)] = true
+			continue
+		}
+		kept = append(kept, h)
+	}
+	t.tempDeleted = kept
+	if len(rewritten) > 0 {
+		keptCreated := t.created[:0]
+		for _, h := range t.created {
+			if !rewritten[string(h)] {
+				keptCreated = append(keptCreated, h)
+			}
+		}
+		t.created = keptCreated
+	}
+	t.collectable = len(t.tempDeleted)
+}
+
 func (t *WeightedMerkleTrie) RollbackTrie(node Node) {
 	if node == nil || node.Weight() == 0 {
 		node = emptyNode
@@ -486,6 +529,7 @@ func (t *WeightedMerkleTrie) RollbackTrie(node Node) {
 	t.created = nil
 	// like Rollback: the nodes the rolled-back changes released are live again
 	t.tempDeleted = nil
+	t.collectable = 0
 	clear(t.deleted)
 }
 
@@ -536,8 +580,8 @@ func (t *WeightedMerkleTrie) commit(node Node, batcher storage.Batcher, collapse
 		}
 		if level == collapseLevel {
 			// a collapsed branch has been written like any other node: account for it too
-			createdChan <- n.Hash()
 			if !bytes.Equal(prevHash, n.Hash()) {
+				createdChan <- n.Hash()
 				deleteChan <- prevHash
 			}
 			n.Children = [16]Node{}
@@ -546,8 +590,8 @@ func (t *WeightedMerkleTrie) commit(node Node, batcher storage.Batcher, collapse
 				weight: n.Weight(),
 			}, nil
 		}
-		createdChan <- n.Hash()
 		if !bytes.Equal(prevHash, n.Hash()) {
+			createdChan <- n.Hash()
 			deleteChan <- prevHash
 		}
 		return n, nil
@@ -571,8 +615,8 @@ func (t *WeightedMerkleTrie) commit(node Node, batcher storage.Batcher, collapse
 			}
 			n.value = hn
 		}
-		createdChan <- n.Hash()
 		if !bytes.Equal(prevHash, n.Hash()) {
+			createdChan <- n.Hash()
 			deleteChan <- prevHash
 		}
 		return n, nil
@@ -582,8 +626,8 @@ func (t *WeightedMerkleTrie) commit(node Node, batcher storage.Batcher, collapse
 		if err != nil {
 			return nil, err
 		}
-		createdChan <- n.Hash()
 		if !bytes.Equal(prevHash, n.Hash()) {
+			createdChan <- n.Hash()
 			deleteChan <- prevHash
 		}
 		return n, nil
